@@ -188,7 +188,7 @@ PROPS = {
     "C12": {
         "rules": [panics.rule_panic(("B",)), annot.rule_annot_check, annot.rule_annot_freevars, shape.rule_shape,
                   traversal.rule_trav(["fun::typing::check::Check"]), wiring.rule_wire_intra, hygiene.rule_fvscope, shrinking.rule_cutvar, traversal.rule_siblings, formatting.rule_nameprint, typing_rules.rule_tywf,
-                  linear.rule_linear_subst, linear.rule_linear_ctx, panics.rule_idxguard, fresh.rule_eta],
+                  linear.rule_linear_subst, linear.rule_linear_ctx, panics.rule_idxguard, fresh.rule_eta, typing_rules.rule_tyrule],
         "text": "'No internal failure' clause: every panic-capable site reachable from the post-check stage entry points is audited, "
                 "and the annotation/shape classes are discharged by checked rules rather than trusted: Check sets every annotation on "
                 "every Ok path and visits every subterm (R-ANNOT, R-TRAV), free-variable and closure-environment annotations are set "
